@@ -6,6 +6,7 @@ cd "$(dirname "$0")"
 export GOFLAGS=-mod=mod GOPROXY=off GOSUMDB=off GOTOOLCHAIN=local CGO_ENABLED=0
 cp /repo/go.sum harness/go.sum
 mkdir -p harness/bin .work evidence replays
+./harness/evilssh_src/gen.sh
 (cd harness && go build -tags verif -o bin/ ./cmd/...)
 mkdir -p lean/P2PVerif/Gen
 ./harness/bin/extract -repo /repo > lean/P2PVerif/Gen/Facts.lean.new
